@@ -80,6 +80,17 @@ def rand_ticker(rng):
     return "".join(rng.choice("ABCDEFGHIJKLMNOPQRSTUVWXYZ0123456789") for _ in range(n))
 
 
+def with_twin_line(rng, l, p=0.4):
+    """An order filled in two equal lots gives two consecutive, textually identical lines: both are transactions
+    (C14-r5m1 collapsed such neighbours in one input path). Only BUY / DIVIDEND lines are doubled, so that the ledger
+    stays covered."""
+    idx = [i for i, t in enumerate(l) if t["kind"] in ("BUY", "DIVIDEND")]
+    if not idx or rng.random() >= p:
+        return l
+    i = rng.choice(idx)
+    return l[:i + 1] + [dict(l[i]) for _ in range(rng.choice([1, 1, 2]))] + l[i + 1:]
+
+
 def rand_tx(rng):
     k = rng.choice(["BUY", "SELL", "DIVIDEND", "ACCUMULATION", "CAPRETURN", "SPLIT", "UNSPLIT"])
     t = {"date": rand_date(rng), "ticker": rand_ticker(rng), "kind": k}
@@ -119,6 +130,7 @@ def run_lists(desc):
     samples = []
     p = probe()
     lists = [[rand_tx(rng) for _ in range(rng.randint(1, 8))] for _ in range(desc["n"])]
+    lists = [(l[:1] + [dict(l[0])] + l[1:]) if rng.random() < 0.15 else l for l in lists]    # identical neighbours
     o_dsl = p.run([{"op": "to_dsl", "txs": l} for l in lists])
     o_js = p.run([{"op": "json_ser", "txs": l} for l in lists])
     back_dsl = p.run([{"op": "parse", "text": o.get("ok", "")} for o in o_dsl])
@@ -206,6 +218,7 @@ def run_reports(desc):
     ledgers = [gen_ledger(rng, Opts(capital=True, splits=True, n_sec=(1, 3), steps=(3, 10),
                                     currencies=["USD", "EUR", "JPY"], start=(dt.date(2016, 1, 1), dt.date(2024, 1, 1)),
                                     last_date=dt.date(2026, 3, 1)))[0] for _ in range(desc["n"])]
+    ledgers = [with_twin_line(rng, l) for l in ledgers]
     od = p.run([{"op": "to_dsl", "txs": l} for l in ledgers])
     oj = p.run([{"op": "json_ser", "txs": l} for l in ledgers])
     reqs = []
@@ -245,6 +258,7 @@ def run_cli(desc):
     for _ in range(desc["n"]):
         l, _f = gen_ledger(rng, Opts(capital=True, splits=True, n_sec=(1, 3), steps=(3, 8), currencies=["USD", "EUR"],
                                      start=(dt.date(2016, 1, 1), dt.date(2024, 1, 1)), last_date=dt.date(2026, 3, 1)))
+        l = with_twin_line(rng, l)
         od = p.one({"op": "to_dsl", "txs": l})
         oj = p.one({"op": "json_ser", "txs": l})
         lib = p.one(dict(lc.calc_case(l, fx="bundled"), outputs=["json"]))
@@ -294,6 +308,7 @@ def run_mcp(desc):
     for _ in range(desc["n"]):
         l, _f = gen_ledger(rng, Opts(capital=True, splits=True, n_sec=(1, 2), steps=(2, 7), currencies=["USD", "EUR"],
                                      start=(dt.date(2016, 1, 1), dt.date(2024, 1, 1)), last_date=dt.date(2026, 3, 1)))
+        l = with_twin_line(rng, l)
         dsl = p.one({"op": "to_dsl", "txs": l})["ok"]
         js = p.one({"op": "json_ser", "txs": l})["ok"]
         ids = {}
